@@ -272,20 +272,21 @@ CLAIMS = {
         technique="contract-based deductive verification of the unit selection/labelling functions + complete per-field ground evaluation of the "
                   "directive table + bounded composition / duration parse-back stand-in (mixed)"),
     "C13": dict(
-        category="other", design="DESIGN.md section 7 C13",
+        category="exploration", design="DESIGN.md section 7 C13",
         text="Mostly bounded. Proved (contract-based, real cell.py): _format_currency only decorates the number text (symbol, tab, parentheses without "
              "the minus sign; every digit kept) for every text, code, flag and sign; _format_fraction_parts_to for all integers (carry of a "
-             "fraction equal to one, never n/n). The numeric relation (display read back == value rounded to the displayed precision; decimals "
+             "fraction equal to one, never n/n); _format_base in minus-sign mode for every value and every base 2..36: the digits the loop produces are the "
+             "base-b expansion of |round(value)| (nonlinear loop invariant with an induction lemma, termination proved), sign by '-'. The numeric relation (display read back == value rounded to the displayed precision; decimals "
              "shown == decimals asked for; separators/negative styles/padding decorate only) for decimal, percentage, currency, scientific, base "
              "and fraction formats is decided by a bounded stand-in with an independent decimal/fraction/base reader: no contract within reach "
              "can express it, because the digits come from the third-party sigfig package, float '%E' formatting, Fraction.limit_denominator and "
-             "bin()/oct()/hex().",
+             "bin()/oct()/hex() (two's complement).",
         note="Genuine defects repaired: fix: commits 1caf0ad (decimals dropped / exponent spelling near zero), d45fa3f (accounting style ate a "
              "digit), b42f721 (fraction carry and negative whole parts). Trusted: " + TB,
         technique="bounded run-time-contract stand-in with an independent oracle (the deciding method for the numeric relation) + contract-based "
                   "deductive verification of the decoration layers"),
     "C20": dict(
-        category="other", design="DESIGN.md section 7 C20",
+        category="exploration", design="DESIGN.md section 7 C20",
         text="Mostly bounded. Checked completely (syntactic obligations on the real _csv2numbers.py): every raise in the converter raises RuntimeError, "
              "main() runs every Converter call inside the handler that prints one line to stderr and exits with status 1, the float coercion is "
              "guarded by math.isfinite, the CSV file is opened with newline='', next() has a default. Proved (contract-based, real "
